@@ -19,9 +19,11 @@ THEOREMS = [
          "neighbours, surroundings and shelf of conductance × temperature difference", strength="full"),
     dict(name="Snow.C01.heat_cancels", clause="heat exchanged between vials sums to zero over the batch "
          "(symmetric neighbour relation)", strength="full"),
-    dict(name="Snow.C01.step_trichotomy", clause="every vial transition of a step is exactly one of: sensible "
-         "cooling, nucleation jump of a supercooled liquid vial, equilibrium solidification; which one is decided by "
-         "sigma = 0 and the nucleation decision", strength="full"),
+    dict(name="Snow.C01.vial_trichotomy", clause="a vial transition is exactly one of: sensible cooling, nucleation "
+         "jump of a supercooled liquid vial to the selected formulation, equilibrium solidification; which one is "
+         "decided by sigma = 0 and the nucleation decision (any q, kb, dice, CN flag)", strength="full"),
+    dict(name="Snow.C01.step_trichotomy", clause="every vial of every step: the new vial value is that transition, "
+         "driven by the net heat flow computed from the old state", strength="full"),
     dict(name="Snow.C01.indirect_is_eq9", clause="indirect formulation = eq. 9 of development.rst", strength="full"),
     dict(name="Snow.C01.direct_solves_eq12", clause="direct formulation solves eq. 12, lies in (0,1) when T < T_eq_l, "
          "and is the only root there", strength="full"),
@@ -88,13 +90,20 @@ def run_model(drv, case, impl=None):
         impl = run_impl(case)
     if impl.get("raise"):
         return {"raise": impl["raise"], "skipped": True}
-    return fu.run_model(drv, case, impl)
+    out = fu.run_model(drv, case, impl)
+    out["consts"] = fu.derive_model(drv, case.get("config"))
+    return out
 
 
 def compare(case, impl, model):
     if impl.get("raise"):
         return []  # construction/run errors of the real code are reported by `predicates`
-    return fu.compare_run(case, impl, model)
+    dis = []
+    for k, v in impl["consts"].items():
+        w = model["consts"][k]
+        if abs(v - w) > 1e-9 * max(abs(v), abs(w)):
+            dis.append(f"derived constant {k}: impl {v!r} vs model {w!r}")
+    return dis + fu.compare_run(case, impl, model)
 
 
 # ---------------------------------------------------------------------------
